@@ -1843,8 +1843,8 @@ def run(ctx: Ctx):
     stream_corpus(ctx, batch)
     stream_small(ctx, batch)
     stream_table(ctx, batch)
-    stream_configs(ctx, batch, ctx.n(500, 5000))
-    stream_bytes(ctx, ctx.n(300, 3000))
+    stream_configs(ctx, batch, ctx.n(400, 5000))
+    stream_bytes(ctx, ctx.n(250, 3000))
     stream_formatter_args(ctx, batch, ctx.n(400, 4000))
     stream_string_output_ready(ctx, batch, ctx.n(250, 2500))
     stream_doctype_ids(ctx, batch, ctx.n(300, 3000))
